@@ -963,13 +963,16 @@ fn run_csiq(ms: u64, d: u64, id: u64, s: u64, e: u64) -> Obs {
 }
 
 fn run_rfreq(table: Vec<u8>) -> Obs {
-    // order 0, compressed size, uncompressed size 0 => decode() reads the table, builds the cumulative
-    // table and the lookup table, reads the 4 states and decodes no symbol
+    // order 0, compressed size, uncompressed size 1 => decode() reads the table, builds the cumulative
+    // table and the lookup table, reads the 4 states (each 2^23) and decodes one symbol
     let mut src = vec![0u8];
-    src.extend_from_slice(&((table.len() + 16) as u32).to_le_bytes());
-    src.extend_from_slice(&0u32.to_le_bytes());
+    src.extend_from_slice(&((table.len() + 24) as u32).to_le_bytes());
+    src.extend_from_slice(&1u32.to_le_bytes());
     src.extend_from_slice(&table);
-    src.extend_from_slice(&[0u8; 16]);
+    for _ in 0..4 {
+        src.extend_from_slice(&0x0080_0000u32.to_le_bytes());
+    }
+    src.extend_from_slice(&[0u8; 8]);
     let shown = hex(&table);
     let ran = watchdog(move || match noodles_cram::verif::rans_4x8_decode(&src) {
         Ok(_) => "Ok".to_string(),
